@@ -41,12 +41,13 @@ OPS = ['finalize', 'unlock_enter', 'unlock_exit_ok', 'unlock_exit_raise', 'bind_
        'register_class_with_method', 'hook_y7', 'hook_y8_other_spelling', 'hook_z', 'hook_invalid', 'hook_raises', 'hook_none', 'hook_empty',
        'parse_unbound_macro', 'parse_placeholder', 'parse_required', 'bind_tuple_x', 'parse_block_z',
        'define_macro', 'parse_macro_y_evaluated', 'parse_macro_z_unevaluated', 'parse_macro_y_short_ref',
-       'finalize_in_scope', 'parse_macro_z_dictkey', 'bind_x_in_other_thread', 'parse_scoped_y']
+       'finalize_in_scope', 'parse_macro_z_dictkey', 'bind_x_in_other_thread', 'parse_scoped_y',
+       'parse_y_one', 'hook_y_true', 'unlock_create', 'unlock_enter_pending']
 UNIVERSE = ['c12.f.x', 'c12.f.y', 'c12.f.z']
 
 
 def bound(tier):
-  return 'depth<=%d over %d operations' % (5 if tier == 'quick' else 7, len(OPS))
+  return 'depth<=%d over %d operations' % (4 if tier == 'quick' else 6, len(OPS))
 
 
 def _hook(kind):
@@ -56,6 +57,8 @@ def _hook(kind):
     return lambda config: {('', 'f', 'y'): 8}
   if kind == 'hook_z':
     return lambda config: {'f.z': 9}
+  if kind == 'hook_y_true':
+    return lambda config: {'c12.f.y': True}        # equal to a bound 1, but not the same value
   if kind == 'hook_invalid':
     return lambda config: {'c12.f.nope': 1}
   if kind == 'hook_none':
@@ -85,6 +88,8 @@ class World:
     self.locked = False
     self.stack = []          # saved lock flags of open unlock blocks (model)
     self.cms = []            # the real context manager objects
+    self.pending = []        # unlock_config() objects created but not yet entered
+    self.cm_kinds = []       # per open block: how its manager came to be (part of the state: futures may differ)
     self.config = {}         # model: key -> value tag
     self.hooks = []          # user hook kinds in registration order
     self.nreg = 0
@@ -112,6 +117,10 @@ class World:
       if op.startswith('unlock_exit') and not self.stack:
         continue
       if op == 'unlock_enter' and len(self.stack) >= 2:
+        continue
+      if op == 'unlock_create' and (self.pending or len(self.stack) >= 2):
+        continue
+      if op == 'unlock_enter_pending' and not self.pending:
         continue
       if op.startswith('hook_') and len(self.hooks) >= 2:
         continue
@@ -142,7 +151,7 @@ class World:
     return obs
 
   def canon(self):
-    return (harness.internal_state(), tuple(self.stack), tuple(self.hooks), self.nreg)
+    return (harness.internal_state(), tuple(self.stack), tuple(self.hooks), self.nreg, tuple(c._c12_locked_at_creation for c in self.pending), tuple(self.cm_kinds))
 
   # ------------------------------------------------------------------ model of finalize
   def model_finalize(self):
@@ -165,7 +174,8 @@ class World:
         return 'ValueError', None
       if h in ('hook_none', 'hook_empty'):
         continue
-      key, val = {'hook_y7': ('c12.f.y', 7), 'hook_y8_other_spelling': ('c12.f.y', 8), 'hook_z': ('c12.f.z', 9)}[h]
+      key, val = {'hook_y7': ('c12.f.y', 7), 'hook_y8_other_spelling': ('c12.f.y', 8), 'hook_z': ('c12.f.z', 9),
+                  'hook_y_true': ('c12.f.y', True)}[h]
       if key in new:
         return 'ValueError', None
       new[key] = val
@@ -196,11 +206,27 @@ class World:
         self.locked = False
         cm = gin.unlock_config()
         self.cms.append(cm)
+        self.cm_kinds.append('immediate')
         _OPEN_CMS.append(cm)
         cm.__enter__()
+      elif op == 'unlock_create':
+        # the lock state an unlock block restores is the one that holds when the block is ENTERED
+        cm = gin.unlock_config()
+        cm._c12_locked_at_creation = self.locked
+        self.pending.append(cm)
+        _OPEN_CMS.append(cm)
+      elif op == 'unlock_enter_pending':
+        if self.pending:
+          self.stack.append(self.locked)
+          self.locked = False
+          cm = self.pending.pop(0)
+          self.cms.append(cm)
+          self.cm_kinds.append(('created_earlier', cm._c12_locked_at_creation))
+          cm.__enter__()
       elif op in ('unlock_exit_ok', 'unlock_exit_raise'):
         self.locked = self.stack.pop()
         cm = self.cms.pop()
+        self.cm_kinds.pop()
         if op == 'unlock_exit_ok':
           cm.__exit__(None, None, None)
         else:
@@ -210,7 +236,8 @@ class World:
             res.violation('unlock_swallows_exception', 'unlock_config swallowed the body exception; %r' % (hist,), hist)
       elif op in ('bind_x', 'bind_tuple_x', 'parse_y', 'parse_block_z', 'parse_unbound_macro', 'parse_placeholder',
                   'parse_required', 'define_macro', 'parse_macro_y_evaluated', 'parse_macro_z_unevaluated',
-                  'parse_macro_y_short_ref', 'parse_macro_z_dictkey', 'bind_x_in_other_thread', 'parse_scoped_y'):
+                  'parse_macro_y_short_ref', 'parse_macro_z_dictkey', 'bind_x_in_other_thread', 'parse_scoped_y',
+                  'parse_y_one'):
         mutator = True
         if self.locked:
           exp_out = 'RuntimeError'
@@ -252,6 +279,11 @@ class World:
             self.config['c12.f.y'] = repr(3)
             self.kinds.pop('y', None)
           gin.parse_config('c12.f.y = 3')
+        elif op == 'parse_y_one':
+          if not self.locked:
+            self.config['c12.f.y'] = repr(1)
+            self.kinds.pop('y', None)
+          gin.parse_config('c12.f.y = 1')
         elif op == 'parse_block_z':
           if not self.locked:
             self.config['c12.f.z'] = repr(4)
@@ -393,8 +425,8 @@ class World:
 def run(ctx):
   res = core.Result()
   res.extra['alphabet'] = OPS
-  bfs.run_bfs(ctx, __import__('checks.c12', fromlist=['x']), 5 if ctx.quick else 7, res,
-              max_states=60000 if ctx.quick else 600000)
+  bfs.run_bfs(ctx, __import__('checks.c12', fromlist=['x']), 4 if ctx.quick else 6, res,
+              max_states=200000 if ctx.quick else 1500000)
   return res
 
 
